@@ -214,7 +214,7 @@ func init() {
 			case 5:
 				r.dec(decimal128.Inf(-1))
 			case 6:
-				r.dec(decimal128.Inf(0))
+				r.dec(decimal128.Inf(int(op.int(1))))
 			}
 		})
 	})
